@@ -1089,7 +1089,7 @@ func main() {
 	rng := hx.NewRNG(c.Seed)
 	nShort, nLong, nModel := 60, 1, 300
 	if c.Thorough() {
-		nShort, nLong, nModel = 1000, 30, 4000
+		nShort, nLong, nModel = 800, 24, 3000
 	}
 	envInt := func(name string, p *int) { // development only
 		if v, err := strconv.Atoi(os.Getenv(name)); err == nil {
@@ -1111,9 +1111,16 @@ func main() {
 		}
 	}
 	// random long histories: real 8192-block window, reorg across the boundary after the cache was warmed
+	// (every chunk size 1..5, fewer limit combinations than on the short histories: the oracle walks 8192+k
+	// blocks per page)
+	var longCfgs []pcfg
+	for ch := uint64(1); ch <= 5; ch++ {
+		longCfgs = append(longCfgs, pcfg{ch, 0}, pcfg{ch, 2})
+	}
+	longCfgs = append(longCfgs, pcfg{1, 1}, pcfg{2, 3}, pcfg{3, 7}, pcfg{1000, 0})
 	for i := 0; i < nLong; i++ {
 		h := genLong(rng.Fork(uint64(1000+i)), 2+i)
-		vs := runReal(c, or, h, cfgs, false)
+		vs := runReal(c, or, h, longCfgs, false)
 		c.Hist["history:long"]++
 		if i < 2 {
 			c.Sample(map[string]any{"long_history_ops": len(h.Ops), "blocks_built": blocksOf(h), "violation_classes": classesOf(vs)})
